@@ -129,6 +129,7 @@ def explore_block(acc, cfg, depth, coarse=False):
                         yield ('s', a, tuple(gen * 1000 + a + i for i in range(c)))
                     if c == 1:
                         yield ('s1', a, 3000 + a)                 # scalar form: setValues(address, value)
+                        yield ('s1', a, 0)                        # ... with a value that is false in a boolean test
                     if cfg[0].startswith('sparse') and c == 2:
                         yield ('sd', a, (4000 + a, 4001 + a))      # sparse blocks also take {address: value}
         yield ('r',)
@@ -308,6 +309,9 @@ def explore_slave(acc, zero_mode, shared, global_default=False, explicit=True, s
                 ctx = ModbusSlaveContext(di=di, co=co, hr=hr, ir=ir, zero_mode=zero_mode)
             else:
                 ctx = ModbusSlaveContext(di=di, co=co, hr=hr, ir=ir)
+            # another unit's context in the same process, built afterwards, with tables of its own elsewhere
+            nb = [ModbusSequentialDataBlock(40 + t, [7000 + t] * 2) for t in range(4)]
+            fresh.neighbour = ModbusSlaveContext(di=nb[0], co=nb[1], hr=nb[2], ir=nb[3], zero_mode=not zero_mode)
         finally:
             Defaults.ZeroMode = saved
         model = {}
@@ -401,6 +405,35 @@ def explore_slave(acc, zero_mode, shared, global_default=False, explicit=True, s
                     if v != want or (want and g != 700 + (a + off - 20)):
                         acc.violation('C18/slave-context/replace-table/stale-block/zero=%s' % zero_mode, w,
                                       'after the %s table was replaced via %s: validate(fx=%d, %d) = %r, value %r' % (t, how, fy, a, v, g), cfgname)
+    acc.add('nontrivial', cfgname)
+
+
+def explore_slave_top(acc, zero_mode):
+    """tables that end at the last wire address there is (0xFFFF): every window around the top of the address space"""
+    off = 0 if zero_mode else 1
+    cfgname = 'slave/top/zero=%s' % zero_mode
+    for fx in FCS:
+        for a in range(0xFFF8, 0x10000):
+            for c in range(1, 6):
+                blocks = [ModbusSequentialDataBlock(0xFFFC + off, [t * 10 + i for i in range(4)]) for t in (1, 2, 3, 4)]
+                ctx = ModbusSlaveContext(di=blocks[0], co=blocks[1], hr=blocks[2], ir=blocks[3], zero_mode=zero_mode)
+                t = FCS[fx]
+                tv = {'d': 1, 'c': 2, 'h': 3, 'i': 4}[t]
+                model = dict((0xFFFC + i, tv * 10 + i) for i in range(4))
+                inside = all((a + i) in model for i in range(c))
+                w = dict(ctx=cfgname, fx=fx, address=a, count=c)
+                acc.inc('transitions', 2)
+                try:
+                    v = bool(ctx.validate(fx, a, c))
+                    got = list(ctx.getValues(fx, a, c)) if (v and inside) else None
+                except Exception as e:   # noqa
+                    acc.violation('C18/slave-context/validate/raise:%s/zero=%s' % (type(e).__name__, zero_mode), w, repr(e)[:80], cfgname)
+                    continue
+                if v != inside:
+                    acc.violation('C18/slave-context/validate/%s/zero=%s' % ('accepts-outside' if v else 'rejects-inside', zero_mode), w,
+                                  'validate(%d, %#x, %d) = %s' % (fx, a, c, v), cfgname)
+                elif inside and got != [model[a + i] for i in range(c)]:
+                    acc.violation('C18/slave-context/getValues/wrong-values/zero=%s' % zero_mode, w, 'got %r' % (got,), cfgname)
     acc.add('nontrivial', cfgname)
 
 
@@ -603,6 +636,8 @@ def shard(args):
         return acc
     if what == 'block':
         explore_block(acc, args[1], args[2])
+    elif what == 'slave-top':
+        explore_slave_top(acc, args[1])
     elif what == 'slave':
         explore_slave(acc, *args[1:])
     else:
@@ -618,7 +653,7 @@ def run(tier, seed):
     # argument (the context takes the default)
     shards += [('slave', z, False, True, True) for z in (False, True)] + [('slave', g, False, g, False) for g in (False, True)]
     shards += [('slave', z, False, False, True, True) for z in (False, True)]
-    shards += [('factories',), ('sparse-wide',)]
+    shards += [('factories',), ('sparse-wide',), ('slave-top', False), ('slave-top', True)]
     sdepth = 3 if tier == 'quick' else 4
     shards += [('server', True, (), sdepth)] + [('server', False, ids, sdepth) for ids in ((), 'no-arg', (1,), (1, 2), (0, 247))]
     acc = par.run_shards(shard, shards)
@@ -653,6 +688,9 @@ def replay(w):
             name = block_name(c, m0)
             if name == w['block']:
                 explore_block(acc, c, len(w['history']))
+        vs = [v for v in acc.violations if v['witness'] == w]
+    elif w['ctx'].startswith('slave/top'):
+        explore_slave_top(acc, 'zero=True' in w['ctx'])
         vs = [v for v in acc.violations if v['witness'] == w]
     elif w['ctx'].startswith('slave'):
         for z in (False, True):
